@@ -44,7 +44,7 @@ class Crashes(Part):
                 # a transaction larger than SQLite's page cache: crash inside the final sync_all (its upserts are the last points)
                 last = list(range(max(1, total - 1100), total + 1))
                 ks = sorted(rng.sample(last, 5 if ctx.quick else 60) + [total - 1, total])
-            cap = 36 if ctx.quick else 100000
+            cap = 30 if ctx.quick else 100000
             if len(ks) > cap:
                 ks = sorted(rng.sample(ks, cap - 2) + [1, total + 1])
             for k in ks:
@@ -56,7 +56,7 @@ class Crashes(Part):
         return cases
 
     def scenarios(self, ctx):
-        return ["serial", "contended", "parallel", "nsga2", "bulk"] + ([] if ctx.quick else ["epsmoea"])
+        return ["serial", "presync", "contended", "parallel", "nsga2", "bulk"] + ([] if ctx.quick else ["epsmoea"])
 
     sigkill_scenarios = ["parallel", "nsga2", "serial"]
 
